@@ -1376,6 +1376,161 @@ theorem ions_raise_potential_ebeam_partial (I : BPIn ℝ) (phi psi : List ℝ) (
     linarith
   exact fd_comparison r bxb (List.zipWith (· + ·) bion bxb) psi phi hg hbxbl hbl hpsi hphi hfree hfix hle hw0 hw
 
+/-- entries of the right-hand side and of the Jacobian diagonal that `step` builds for an ion-free e-beam problem -/
+theorem ionfree_step_entries (I : BPIn ℝ) (phi : List ℝ) (hv : I.variant = .ebeam) (hsp : ∀ s ∈ I.sp, s.nl = 0) : ∀ i (h1 : i < phi.length) (hb : i < (step I phi).b.length) (hj : i < (step I phi).jd.length) (hcc : i < I.cden.length),
+      ((step I phi).b)[i] = -I.cden[i] / Real.sqrt (2 * Const.Q_E * (I.e_kin + phi[i]) / Const.M_E) / Const.EPS_0 ∧
+      ((step I phi).jd)[i] = -(Const.Q_E / Const.M_E * (-I.cden[i] / Real.sqrt (2 * Const.Q_E * (I.e_kin + phi[i]) / Const.M_E) / Const.EPS_0)
+          / (2 * Const.Q_E * (I.e_kin + phi[i]) / Const.M_E)) := by
+    obtain ⟨variant, r, ldu, b0, cden, e_kin, sp⟩ := I
+    simp only at hv hsp ⊢
+    subst hv
+    intro i h1 hb hj hcc
+    simp only [step] at hb hj ⊢
+    set shape : List (List ℝ) := sp.map fun s => phi.map fun p => Transc.exp (-s.q * (p - minL phi) / s.kT) with hshape
+    set i_sr : List ℝ := shape.map fun sh => trapz (List.zipWith (· * ·) r sh) r with hisr
+    set nax : List ℝ := zipWith3 (fun (s : Species ℝ) (sh : List ℝ) (isr : ℝ) => s.nl / lit 2 / Const.PI / isr * sh.headD (lit 0)) sp shape i_sr with hnax
+    have hnax0 : ∀ v ∈ nax, v = 0 := by
+      intro v hv'
+      obtain ⟨s, hs, _, _, _, _, rfl⟩ := mem_zipWith3 _ _ _ _ v hv'
+      simp [hsp s hs]
+    set bxa := zipWith3 (fun (s : Species ℝ) (sh : List ℝ) nx =>
+        zeroLast (sh.map fun v => -nx * s.q * v * Const.Q_E / Const.EPS_0)) sp shape nax with hbxa
+    have hbxa0 : ∀ row ∈ bxa, ∀ v ∈ row, v = 0 := by
+      intro row hrow
+      obtain ⟨s, _, sh, _, nx, hnx, rfl⟩ := mem_zipWith3 _ _ _ _ row hrow
+      apply zeroLast_zero
+      intro v hv'
+      obtain ⟨w, _, rfl⟩ := List.mem_map.mp hv'
+      simp [hnax0 nx hnx]
+    have hion : ∀ v ∈ colSum phi.length bxa, v = 0 := colSum_zero _ _ hbxa0
+    set jrows := zipWith3 (fun (s : Species ℝ) (bx : List ℝ) (p : List ℝ × ℝ) =>
+        List.zipWith (fun v c => v * s.q / s.kT * (p.2 - c) / p.2) bx (cTerm r p.1)) sp bxa (List.zip shape i_sr) with hjrows
+    have hjion : ∀ v ∈ colSum phi.length jrows, v = 0 := by
+      apply colSum_zero
+      intro row hrow
+      obtain ⟨s, _, bx, hbx, p, _, rfl⟩ := mem_zipWith3 _ _ _ _ row hrow
+      intro v hv'
+      obtain ⟨a, ha, c, _, rfl⟩ := mem_zipWith_exists _ _ _ v hv'
+      rw [hbxa0 bx hbx a ha]; simp
+    constructor
+    · rw [List.getElem_zipWith]
+      have : (colSum phi.length bxa)[i]'(by simp only [List.length_zipWith] at hb; omega) = 0 := hion _ (List.getElem_mem _)
+      rw [this, List.getElem_zipWith]
+      simp
+    · obtain ⟨h1', h2', h3', e⟩ := zipWith3_getElem _ _ _ _ i hj
+      rw [e]
+      have : (colSum phi.length jrows)[i]'h1' = 0 := hjion _ (List.getElem_mem _)
+      rw [this, List.getElem_zipWith]
+      simp
+
+/-- **the returned Newton iterate of the ion-free beam lies between two frozen-velocity Poisson potentials**: if the previous iterate lies
+in `[p_min, 0]` with `E + p_min > 0` and the last correction is small, `|y| ≤ 2δ(E + φ_prev)` with `0 ≤ δ < 1` (the stopping test gives
+`δ ≈ 10⁻³`), then `φ_lo ≤ φ' ≤ φ_hi`, where `φ_lo` / `φ_hi` are the finite-difference Poisson potentials of the beam with the electron velocity
+frozen at `E + p_min` and the charge scaled by `1 + δ`, respectively frozen at `E` and scaled by `1 − δ` -/
+theorem ionfree_iterate_between (I : BPIn ℝ) (phi philo phihi : List ℝ) (pm δ : ℝ)
+    (hv : I.variant = .ebeam) (hsp : ∀ s ∈ I.sp, s.nl = 0)
+    (hg : GridMP I.r) (hldu : I.ldu = fdNonuniform I.r) (hphi : phi.length = I.r.length)
+    (hlo_len : philo.length = I.r.length) (hhi_len : phihi.length = I.r.length)
+    (hc : I.cden.length = I.r.length) (hcz : I.cden.getLast? = some 0) (hcd : ∀ c ∈ I.cden, c ≤ 0)
+    (hp : PivotsOk 0 (newtonRows I.ldu (step I phi).jd (targetFun none I.ldu phi (step I phi).b)))
+    (hpm : ∀ p ∈ phi, pm ≤ p) (hp0 : ∀ p ∈ phi, p ≤ 0) (hpos : 0 < I.e_kin + pm) (hδ0 : 0 ≤ δ) (hδ1 : δ < 1)
+    (hy : ∀ i (h1 : i < phi.length) (h2 : i < (step I phi).y.length), |((step I phi).y)[i]| ≤ 2 * δ * (I.e_kin + phi[i]))
+    (hw : (step I phi).phi.getLast? = some 0) (hwlo : philo.getLast? = some 0) (hwhi : phihi.getLast? = some 0)
+    (hlo : mulL 0 I.ldu philo = I.cden.map fun c => (1 + δ) * (-c / Real.sqrt (2 * Const.Q_E * (I.e_kin + pm) / Const.M_E) / Const.EPS_0))
+    (hhi : mulL 0 I.ldu phihi = I.cden.map fun c => (1 - δ) * (-c / Real.sqrt (2 * Const.Q_E * I.e_kin / Const.M_E) / Const.EPS_0)) :
+    (∀ p ∈ List.zip philo (step I phi).phi, p.1 ≤ p.2) ∧ (∀ p ∈ List.zip (step I phi).phi phihi, p.1 ≤ p.2) := by
+  have hn : 0 < phi.length := by have := hg.two_le; omega
+  obtain ⟨hbl, _, hjl, _⟩ := step_wall_rhs I phi hn (by omega) (fun h => absurd hv h) (fun _ => ⟨by omega, hcz⟩)
+  have hldul : I.ldu.length = phi.length := by rw [hldu, fdNonuniform_length' I.r hg]; omega
+  have hid := self_consistent_partial I phi hldul (by omega) (by omega) hp
+  have hpl := step_phi_length I phi hn (by omega) hldul (fun h => absurd hv h) (fun _ => ⟨by omega, hcz⟩)
+  have hyl : (step I phi).y.length = phi.length := by
+    have e := step_is_newton I phi
+    have e2 : (step I phi).y = (newton I.ldu phi (step I phi).b (step I phi).jd).2 := by rw [← e]
+    rw [e2]
+    simp only [newton]
+    have hfl : (targetFun none I.ldu phi (step I phi).b).length = I.ldu.length := by
+      rw [targetFun_eq I.ldu phi (step I phi).b none hldul (by omega)]; simp [mulL_length 0 I.ldu phi hldul]; omega
+    obtain ⟨_, hl⟩ := newtonRows_b I.ldu (step I phi).jd (targetFun none I.ldu phi (step I phi).b) (by omega) (by omega)
+    have hl' : (newtonRows I.ldu (step I phi).jd (targetFun none I.ldu phi (step I phi).b)).length = I.ldu.length := hl
+    rw [solve_length, hl']; omega
+  have key := ionfree_step_entries I phi hv hsp
+  set bt := List.zipWith (· - ·) (step I phi).b (List.zipWith (· * ·) (step I phi).jd (step I phi).y) with hbt
+  have hbtl : bt.length = I.r.length := by simp only [hbt, List.length_zipWith]; omega
+  have hQM : (0 : ℝ) < 2 * (Const.Q_E : ℝ) / (Const.M_E : ℝ) := by
+    have := Const.Q_E_pos; have := Const.M_E_pos; positivity
+  have hsq : ∀ x y : ℝ, x ≤ y → Real.sqrt (2 * Const.Q_E * x / Const.M_E) ≤ Real.sqrt (2 * Const.Q_E * y / Const.M_E) := by
+    intro x y hxy
+    apply Real.sqrt_le_sqrt
+    have e : ∀ z : ℝ, 2 * Const.Q_E * z / Const.M_E = (2 * Const.Q_E / Const.M_E) * z := fun z => by ring
+    rw [e x, e y]; exact mul_le_mul_of_nonneg_left hxy hQM.le
+  have hsqpos : 0 < Real.sqrt (2 * Const.Q_E * (I.e_kin + pm) / Const.M_E) := by
+    apply Real.sqrt_pos.mpr
+    have e : 2 * Const.Q_E * (I.e_kin + pm) / Const.M_E = (2 * Const.Q_E / Const.M_E) * (I.e_kin + pm) := by ring
+    rw [e]; exact mul_pos hQM hpos
+  have heps := Const.EPS_0_pos
+  -- entry i of the right-hand side of the Newton identity, and its two bounds
+  have hentry : ∀ i (hi : i < bt.length), ∃ (hc1 : i < I.cden.length) (hp1 : i < phi.length),
+      (1 - δ) * (-I.cden[i] / Real.sqrt (2 * Const.Q_E * I.e_kin / Const.M_E) / Const.EPS_0) ≤ bt[i] ∧
+      bt[i] ≤ (1 + δ) * (-I.cden[i] / Real.sqrt (2 * Const.Q_E * (I.e_kin + pm) / Const.M_E) / Const.EPS_0) := by
+    intro i hi
+    have hi' : i < phi.length := by omega
+    refine ⟨by omega, hi', ?_⟩
+    simp only [hbt, List.getElem_zipWith]
+    obtain ⟨eb, ej⟩ := key i hi' (by omega) (by omega) (by omega)
+    rw [eb, ej]
+    have hci := hcd _ (List.getElem_mem (by omega : i < I.cden.length))
+    have hpi := hpm _ (List.getElem_mem hi')
+    have hpi0 := hp0 _ (List.getElem_mem hi')
+    have hyi := hy i hi' (by omega)
+    set E := I.e_kin + phi[i] with hE
+    have hEpos : 0 < E := by linarith
+    have hs1 := hsq (I.e_kin + pm) E (by linarith)
+    have hs2 := hsq E I.e_kin (by linarith)
+    have hsE : 0 < Real.sqrt (2 * Const.Q_E * E / Const.M_E) := lt_of_lt_of_le hsqpos hs1
+    set β := -I.cden[i] / Real.sqrt (2 * Const.Q_E * E / Const.M_E) / Const.EPS_0 with hβ
+    have hβ0 : 0 ≤ β := div_nonneg (div_nonneg (by linarith) hsE.le) heps.le
+    have e1 : (Const.Q_E : ℝ) / Const.M_E * β / (2 * Const.Q_E * E / Const.M_E) = β / (2 * E) := by
+      have := Const.Q_E_pos; have := Const.M_E_pos
+      field_simp
+    rw [e1]
+    have e2 : β - -(β / (2 * E)) * ((step I phi).y)[i] = β * (1 + ((step I phi).y)[i] / (2 * E)) := by
+      field_simp; ring
+    rw [e2]
+    have hε : |((step I phi).y)[i] / (2 * E)| ≤ δ := by
+      rw [abs_div, abs_of_pos (by linarith : (0:ℝ) < 2 * E), div_le_iff₀ (by linarith)]
+      nlinarith [hyi]
+    have hεb := abs_le.mp hε
+    -- β between the two frozen-velocity values
+    have hβhi : -I.cden[i] / Real.sqrt (2 * Const.Q_E * I.e_kin / Const.M_E) / Const.EPS_0 ≤ β :=
+      div_le_div_of_nonneg_right (div_le_div_of_nonneg_left (by linarith) hsE hs2) heps.le
+    have hβlo : β ≤ -I.cden[i] / Real.sqrt (2 * Const.Q_E * (I.e_kin + pm) / Const.M_E) / Const.EPS_0 :=
+      div_le_div_of_nonneg_right (div_le_div_of_nonneg_left (by linarith) hsqpos hs1) heps.le
+    have hhi0 : 0 ≤ -I.cden[i] / Real.sqrt (2 * Const.Q_E * I.e_kin / Const.M_E) / Const.EPS_0 :=
+      div_nonneg (div_nonneg (by linarith) (Real.sqrt_nonneg _)) heps.le
+    set ε := ((step I phi).y)[i] / (2 * E) with hεdef
+    set βhi := -I.cden[i] / Real.sqrt (2 * Const.Q_E * I.e_kin / Const.M_E) / Const.EPS_0 with hβhidef
+    set βlo := -I.cden[i] / Real.sqrt (2 * Const.Q_E * (I.e_kin + pm) / Const.M_E) / Const.EPS_0 with hβlodef
+    constructor
+    · calc (1 - δ) * βhi ≤ (1 - δ) * β := mul_le_mul_of_nonneg_left hβhi (by linarith)
+        _ = β * (1 - δ) := by ring
+        _ ≤ β * (1 + ε) := mul_le_mul_of_nonneg_left (by linarith [hεb.1]) hβ0
+    · calc β * (1 + ε) ≤ β * (1 + δ) := mul_le_mul_of_nonneg_left (by linarith [hεb.2]) hβ0
+        _ = (1 + δ) * β := by ring
+        _ ≤ (1 + δ) * βlo := mul_le_mul_of_nonneg_left hβlo (by linarith)
+  rw [hldu] at hid hlo hhi
+  constructor
+  · refine fd_comparison I.r _ bt philo (step I phi).phi hg (by simp [hc]) hbtl hlo_len (by omega) hlo hid ?_ hwlo hw
+    apply zip_le_of_getElem _ _ (by simp [hc, hbtl])
+    intro i h1 h2
+    obtain ⟨hc1, _, _, hub⟩ := hentry i h2
+    rw [List.getElem_map]; exact hub
+  · refine fd_comparison I.r bt _ (step I phi).phi phihi hg hbtl (by simp [hc]) (by omega) hhi_len hid hhi ?_ hw hwhi
+    apply zip_le_of_getElem _ _ (by simp [hc, hbtl])
+    intro i h1 h2
+    obtain ⟨hc1, _, hlb, _⟩ := hentry i h1
+    rw [List.getElem_map]; exact hlb
+
 /-! ## heat capacity in a wide harmonic well -/
 
 section Harmonic
